@@ -1,6 +1,6 @@
 """Per-property configuration of the Kani/CBMC checks (harness overlays, bounds, tiers)."""
 
-COMMON_OVERLAYS = [("layer", "vkl.rs")]
+COMMON_OVERLAYS = [("layer", "vkl.rs"), ("cel", "vkl.rs"), ("reader", "vkl.rs")]
 
 COMMON_ASSUMPTIONS = [
     "Kani 0.68 MIR->goto translation and CBMC 6.11 + CaDiCaL are trusted; rustc dev-profile semantics "
@@ -37,4 +37,69 @@ PROPS["C09"] = dict(
     },
     explanation="compute_parents / Layer::parent / Layer::is_visible executed symbolically from the compiled MIR; "
                 "the contribution of hidden layers to Frame::image is decided under C02 (c02_*_frame_fold)",
+)
+
+
+PROPS["C03"] = dict(
+    prefix="c03_",
+    overlays=[("blend", "vk_ref.rs"), ("blend", "vk_c03.rs")],
+    pregen=[("softlight_table.py", "src/blend/vk_softtab.rs")],
+    rotate=["c03_t_soft_rows_%03d" % (8 * k) for k in range(32)],
+    per_harness={
+        r"c03_q_normal_(alpha|red|green|blue)": dict(only_desc=r"normal == rgba_blender_normal", timeout=1500),
+        r"c03_t_normal_internal_checks": dict(timeout=3000),
+        r"c03_q_wrap_hsl_.*": dict(only_desc=r"HSL mode ==", timeout=900),
+    },
+    timeout_quick=900, timeout_thorough=2400,
+    bounds="every integer harness ranges over the function's complete input domain (u8^2 for channel kernels, "
+           "2^72 for normal/merge/mode(b,s,o)); no loop bound is involved",
+    outside="HSL modes off the stated colour lattice; the variant->function dispatch table (Kani cannot compile it)",
+)
+
+
+PROPS["C17"] = dict(
+    prefix="c17_",
+    overlays=[("blend", "vk_ref.rs"), ("blend", "vk_c03.rs"), ("blend", "vk_c17.rs")],
+    pregen=[("softlight_table.py", "src/blend/vk_softtab.rs")],
+    extra_harnesses=dict(
+        quick=["c03_q_wrap_soft_light", "c03_q_wrap_hsl_hue", "c03_q_wrap_hsl_saturation", "c03_q_wrap_hsl_color",
+               "c03_q_wrap_hsl_luminosity", "c03_q_merge_full", "c03_q_leaf_mul_un8", "c03_q_leaf_blend8", "c03_q_leaf_div_un8",
+               "c03_t_normal_internal_checks"],
+        thorough=["c03_q_wrap_multiply", "c03_q_wrap_screen", "c03_q_wrap_overlay", "c03_q_wrap_darken", "c03_q_wrap_lighten",
+                  "c03_q_wrap_color_dodge", "c03_q_wrap_color_burn", "c03_q_wrap_hard_light", "c03_q_wrap_difference",
+                  "c03_q_wrap_exclusion", "c03_q_wrap_divide", "c03_q_wrap_addition", "c03_q_wrap_subtract",
+                  "c03_q_soft_rows_060_067"]),
+    per_harness={
+        r"c03_q_wrap_hsl_.*": dict(only_desc=r"HSL mode ==", timeout=900),
+        r"c17_q_laws_.*": dict(only_desc=r"LAW", timeout=900),
+        r"c17_q_normal_opaque_identity": dict(only_desc=r"LAW", timeout=900),
+        r"c03_t_normal_internal_checks": dict(timeout=3000),
+    },
+    bounds="all 2^72 (backdrop, source, opacity) triples per mode; no loops",
+    outside="range of the HSL float pipeline off the colour lattice of C03",
+)
+
+
+PROPS["C02"] = dict(
+    prefix="c02_",
+    overlays=[("file", "vk_c02.rs")],
+    extra_harnesses=dict(quick=[], thorough=[]),
+    per_harness={
+        r"c02_._fold_.*": dict(mem_gb=12, recursion={r"file::AsepriteFile::write_cel": 2}, timeout=1500),
+    },
+    jobs_thorough=6,
+    bounds="raw cel unit: canvas <= 3x2, cel <= 2x2, offset over all of i16 x i16, opacities/pixels/mode unrestricted; "
+           "frame fold: <= 3 layers, 2 frames, 1x1 canvas and cels, symbolic flags/levels/opacities/modes/cel kinds",
+    outside="larger rectangles (source index arithmetic is decided for cel width <= 2), more than 3 layers; what the 19 "
+            "blend functions compute (C03); tilemap cels in the fold (C08 harnesses)",
+)
+
+
+PROPS["C04"] = dict(
+    prefix="c04_",
+    overlays=[("lib.rs", "vk_c04.rs")],
+    bounds="chunk payloads <= 58 bytes with every attribute byte symbolic (string-length bytes concrete 0/1), <= 5 layers "
+           "with arbitrary u16 nesting levels, cel tables of <= 2 frames x 2 layers with symbolic link targets",
+    outside="real zlib inflate (identity model of unzip), payloads longer than the skeletons, allocation failure (C12), "
+            "stack depth, the whole-file loop (decided per unit; glue is read_aseprite's ?-propagation)",
 )
